@@ -119,3 +119,51 @@ def run(tu, script_text, native=False, keep=False):
                 except OSError:
                     pass
     return Dag(d)
+
+
+def merge(primary, others):
+    """Merge several recorded DAGs (same variable names = same inputs) into the primary one, re-interning
+    structurally equal nodes so that identical computations in different TUs / runs get the same node id.
+    others: dict prefix -> Dag; their outs/ints are exposed as '<prefix>:<name>'."""
+    import copy
+    m = copy.copy(primary)
+    m.nodes = list(primary.nodes)
+    m.outs = dict(primary.outs)
+    m.outv = dict(primary.outv)
+    m.ints = dict(primary.ints)
+    m.path = list(primary.path)
+    table = {}
+    for i, n in enumerate(m.nodes):
+        if n[0] == POISON:
+            continue
+        table.setdefault(tuple(n), i)
+    npoison = sum(1 for n in m.nodes if n[0] == POISON)
+    for pre, g in others.items():
+        mp = [0] * len(g.nodes)
+        for i, n in enumerate(g.nodes):
+            op = n[0]
+            if op in (CONST, VAR):
+                key = (op, n[1])
+            elif op == POISON:
+                key = None
+            else:
+                key = (op, mp[n[1]], mp[n[2]] if n[2] >= 0 else -1)
+            if key is not None and key in table:
+                mp[i] = table[key]
+                continue
+            if op == POISON:
+                m.nodes.append([POISON, npoison, -1])
+                npoison += 1
+            else:
+                m.nodes.append(list(key))
+                table[key] = len(m.nodes) - 1
+            mp[i] = len(m.nodes) - 1
+        for k, v in g.outs.items():
+            m.outs[pre + ':' + k] = mp[v]
+            m.outv[pre + ':' + k] = g.outv[k]
+        for k, v in g.ints.items():
+            m.ints[pre + ':' + k] = v
+        for f in g.path:
+            m.path.append([f[0], mp[f[1]] if f[1] >= 0 else -1, mp[f[2]] if f[2] >= 0 else -1, f[3]])
+    m.varid = {n[1]: i for i, n in enumerate(m.nodes) if n[0] == VAR}
+    return m
